@@ -176,6 +176,10 @@ package netceptor
 //@   ensures DROPPED: [C12] acqof("firewallLock", fwdec(s, md)) == 3 ==> ownsends() == 0 && result == nil
 //@   ensures REJECTED: [C12] acqof("firewallLock", fwdec(s, md)) == 2 ==> ownsends() == 0 && result == nil
 //@   ensures UNKNOWNLOCAL: [C16] result != nil ==> fwaccept(acqof("firewallLock", fwdec(s, md)))
+//@   ghostflag noticed set call:sendUnreachable
+//@   ensures REJECTNOTICED: [C12 C16] acqof("firewallLock", fwdec(s, md)) == 2 && md.FromService != "unreach" ==> flag("noticed")
+//@   ensures UNKNOWNNOTICED: [C16] fwaccept(acqof("firewallLock", fwdec(s, md))) && old(md.ToNode == s.nodeID) && md.FromNode != s.nodeID && !lastcall("dispatchReservedService", 0)
+//@        && acqof("listenerLock", !(md.ToService in s.listenerRegistry)) ==> flag("noticed")
 
 //@ func (*Netceptor).forwardMessage
 //@   tags C02 C07 C10
@@ -183,6 +187,8 @@ package netceptor
 //@   requires s != nil && md != nil
 //@   site call sendUnreachable EXPIRED: [C10] requires md.HopsToLive == 0 && md.FromService != "unreach" && arg1 == md.FromNode && echoes(arg2, md) && arg2.Problem == ProblemExpiredInTransit
 //@   site call translateDataFromMessage ENC: [C10] requires md.HopsToLive > 0 && arg1 == md
+//@   ghostflag noticed set call:sendUnreachable
+//@   ensures EXPIRYNOTICED: [C10] old(md.HopsToLive) == 0 && md.FromService != "unreach" ==> flag("noticed")
 //@   ensures COUNT: [C10] ownsends() <= fwdcount(old(md.HopsToLive))
 //@   ensures TTL0: [C10] old(md.HopsToLive) == 0 ==> result == nil
 //@   ensures SENTOK: [C10 C02] result == nil && old(md.HopsToLive) > 0 ==> ownsends() == 1
@@ -436,6 +442,7 @@ package netceptor
 //@        && arg1.Roots == (verifyType == VerifyServer ? tlscfg.RootCAs : tlscfg.ClientCAs)
 //@        && len(arg1.KeyUsages) == 1 && arg1.KeyUsages[0] == (verifyType == VerifyServer ? 1 : 2)
 //@        && arg1.DNSName == ((expectedHostnameType == ExpectedHostnameTypeDNS) ? expectedHostname : "")
+//@   site call Verify NOW: [C09] requires arg1.CurrentTime == lastcall("Now", 0)
 //@   site call Verify PINNED: [C09] requires len(pinnedFingerprints) > 0 ==> fingerprintOK
 //@   site call ParseReceptorNamesFromCert NAME: [C09] requires arg0 == certs[0] && arg1 == expectedHostname
 //@   ensures ACCEPT: [C09] result == nil ==> len(rawCerts) > 0 && lastcall("Verify", 1) == nil
@@ -531,6 +538,8 @@ package netceptor
 //@   params s
 //@   pure
 //@   ensures NONNIL: result != nil
+// nobody closes the receive channel of a socket (deliveries may be waiting to send on it; readers watch the context)
+//@ spec neverclosed_PacketConn_recvChan() bool := true
 //@ immutable PacketConn.s, PacketConn.localService, PacketConn.recvChan, PacketConn.advertise, PacketConn.cancel, PacketConn.context
 
 // Close removes the socket's own service name from the registry it was registered in, cancels the socket's
@@ -603,6 +612,8 @@ package netceptor
 //@   tags C17 C16
 //@   requires pc != nil && pc.s != nil && pc.unreachableSubs != nil
 //@   site call Publish OWNNOTICES: [C16] requires arg1 == box(msg) && msg.FromNode == lastcall("NodeID", 0) && msg.FromService == pc.localService
+//@   ghostflag published set call:Publish iter #1
+//@   site continue #1 NONEDROPPED: [C16] requires ok && msg.FromNode == lastcall("NodeID", 0) && msg.FromService == pc.localService ==> flag("published")
 //@   site block * EXITS: [C17] requires waits(iChan)
 //@ func (*PacketConn).SubscribeUnreachable$1
 //@   tags C17
@@ -715,6 +726,7 @@ package netceptor
 //@   safety slice index
 //@   modifies nothing
 //@   ensures PAIR: [C12] result.1 == nil ==> result.0 != nil
+//@   site call Compile ANCHORED: [C12] requires arg0 == lastcall("Sprintf", 0) && lastarg("Sprintf", 0) == "^%s$"
 //@   ensures TRUSTED_DET: (result.1 == nil) == patcompiles(field, value)
 
 //@ func checkPattern
